@@ -67,6 +67,9 @@ type Scenario struct {
 	Kinds     []string       `json:"kinds,omitempty"`
 	Spellings []string       `json:"spellings,omitempty"` // C11
 	Plans     [][]sim.Fault  `json:"fault_plans,omitempty"` // C08: every plan is run
+	// Prelude: scenarios run (verdicts ignored) in the same process before this one. Only present in
+	// replay files of violations that need state left behind by earlier calls to manifest.
+	Prelude []*Scenario `json:"prelude,omitempty"`
 }
 
 func (s *Scenario) Clone() *Scenario {
